@@ -41,6 +41,7 @@ def cases(tier):
         shapes = sorted(itertools.product(range(1, n + 1), repeat=dim), key=lambda s: (sum(s), s))
         for s in shapes:
             out.append({"kind": "grid", "shape": list(s), "vs": "float"})
+            out.append({"kind": "grid", "shape": list(s), "vs": "scalar"})
             out.append({"kind": "grid", "shape": list(s), "vs": "list"})
             if tier == "thorough" or max(s) <= (12, 5, 3)[dim - 1]:
                 out.append({"kind": "image", "shape": list(s)})
@@ -67,9 +68,9 @@ def run_case(case, r):
         return f"C07/{clause}/dim={dim}/{cls}/{case['kind']}"
 
     if case["kind"] == "grid":
-        vs = 1.0 if case["vs"] == "float" else list(VS[dim])
+        vs = {"float": 1.0, "scalar": 0.5, "list": list(VS[dim])}[case["vs"]]
         g = darsia.Grid(shape, vs)
-        vs_ref = np.ones(dim) if case["vs"] == "float" else np.array(VS[dim])
+        vs_ref = {"float": np.ones(dim), "scalar": np.full(dim, 0.5), "list": np.array(VS[dim])}[case["vs"]]
     else:
         dims = [0.5 * s for s in shape]  # voxel size 0.5 on every axis, exact
         img = darsia.Image(np.zeros(shape), dimensions=dims, space_dim=dim)
